@@ -1,13 +1,194 @@
-"""CLI slice of C03 (filled in below once the PretextView model exists)."""
+"""
+CLI slice shared by C03 / C06 / C09 / C11: pretext-to-asm -o x.fa on a
+generated FASTA and PretextView-model maps (scratch files), then every
+<name>.fa / <name>.agp pair is checked against each other and against the
+input sequences; info.yaml, log and file names are checked for C09 / C11.
+"""
+
+import logging
+import re
+
+from mc import agpcheck, cli, pv
+from mc import fastamodel as fm
+from mc.engine import h64
+
+INP = (
+    ("scaffold_1", (("F", "scaffold_1", 1, 24, 1), ("G", 5, "scaffold"), ("F", "scaffold_1", 30, 61, 1))),
+    ("HAP1_SCAFFOLD_2", (("F", "HAP1_SCAFFOLD_2", 1, 27, 1),)),
+    ("scaffold_3", (("F", "scaffold_3", 1, 2, 1),)),
+)
+BPT = 2.5
+TAGSETS = [(), ("Haplotig",), ("Contaminant",), ("FalseDuplicate",)]
+
+
+def cases(tier):
+    """(pv spec) list"""
+    out = []
+    e = 3
+    present = INP[:2]
+    for pieces in pv.pv_piece_lists(present, BPT, max_cuts=1, max_pieces=3, min_pieces=2, margin=e + 2 if tier == "thorough" else 1):
+        np_ = len(pieces)
+        arrs = list(pv.arrangements_reduced(np_)) if tier == "thorough" else [
+            tuple(((i, 1),) for i in range(np_)),
+            (tuple((i, 1 if i % 2 == 0 else -1) for i in range(np_)),),
+            tuple(((i, -1),) for i in reversed(range(np_))),
+        ]
+        for arr in arrs:
+            ng = len(arr)
+            for painted in ((False,) * ng, (True,) * ng):
+                for tagged_piece in [None, *range(np_)]:
+                    for t in TAGSETS[1:] if tagged_piece is not None else [()]:
+                        tags = [()] * np_
+                        if tagged_piece is not None:
+                            tags[tagged_piece] = t
+                        out.append(pv.make_pv(BPT, pieces, arr, painted, tags))
+    return out
 
 
 def shards(tier):
-    return []
+    n = 16
+    return [("cli", c, n, tier) for c in range(n)]
 
 
-def run_shard(chk, shard, ctx):
-    raise NotImplementedError
+def parse_fasta(data):
+    recs = []
+    for line in data.split(b"\n"):
+        if line.startswith(b">"):
+            recs.append([line[1:].decode(), [], False])
+        elif recs:
+            recs[-1][1].append(line)
+    return recs
 
 
-def replay(chk, case, ctx):
-    raise NotImplementedError
+def parse_agp_rows(text):
+    objs = []
+    cur = None
+    for line in text.splitlines():
+        if not line.strip() or line.startswith("#"):
+            continue
+        f = line.split("\t")
+        if f[0] != cur:
+            cur = f[0]
+            objs.append((cur, []))
+        if f[4] in ("U", "N"):
+            objs[-1][1].append(("G", int(f[5]), f[6]))
+        else:
+            objs[-1][1].append(("F", f[5], int(f[6]), int(f[7]), {"+": 1, "-": -1, "?": 0}[f[8]]))
+    return objs
+
+
+def check_outputs(case, files, seqs, ctx, validate_only=False):
+    """files: {name: bytes} of the output directory"""
+    fas = sorted(n for n in files if n.endswith(".fa"))
+    if not fas:
+        ctx.violation("cli-no-fasta-written", case, f"{sorted(files)!r}")
+        return
+    for fa in fas:
+        agp_name = fa[: -len(".fa")] + ".agp"
+        if agp_name not in files:
+            ctx.violation("agp-companion-missing", case, f"{fa} without {agp_name}")
+            continue
+        agp_text = files[agp_name].decode()
+        objs = parse_agp_rows(agp_text)
+        recs = parse_fasta(files[fa])
+        rec_len = {name: sum(len(ln) for ln in lines) for name, lines, _ in recs}
+        for klass, detail in agpcheck.validate_agp(agp_text, rec_len if len(rec_len) == len(recs) else None, [n for n, _, _ in recs])[:3]:
+            ctx.violation(klass + "/cli", case, f"{agp_name}: {detail}")
+        if validate_only:
+            continue
+        names = [n for n, _, _ in recs]
+        if len(set(names)) != len(names):
+            ctx.violation("fasta-duplicate-record-names", case, f"{fa}: {names!r}")
+        if names != [n for n, _ in objs]:
+            ctx.violation("fasta-records-ne-agp-objects", case, f"{fa}: {names!r} vs {[n for n, _ in objs]!r}")
+            continue
+        want = fm.expected_stream(seqs, objs, 60)
+        if files[fa] != want:
+            ctx.violation("fasta-ne-agp-applied-to-input", case, f"{fa}: got {files[fa][:200]!r} expected {want[:200]!r}")
+        for name, lines, _ in recs:
+            body = [ln for ln in lines]
+            if body and body[-1] == b"":
+                body = body[:-1]
+            if any(len(ln) == 0 or len(ln) > 60 for ln in body):
+                ctx.violation("fasta-line-lengths", case, f"{fa}/{name}")
+
+
+def check_c09_files(case, files, pvspec, ctx):
+    """file names carry the routing: haplotigs / contaminants / falseduplicates / primary.curated"""
+    tags = {t for _, ps in pvspec[1] for p in ps for t in p[4]}
+    want = {"Haplotig": "additional_haplotigs.curated.fa", "Contaminant": "contaminants.fa", "FalseDuplicate": "falseduplicates.fa"}
+    for t, sfx in want.items():
+        has = any(n.endswith(sfx) for n in files)
+        if (t in tags) != has:
+            # a tagged piece may have lost all its rows to a neighbour; only report files without a tag
+            if has and t not in tags:
+                ctx.violation("cli-unexpected-assembly-file", case, f"*{sfx} written but no piece is tagged {t}")
+    if not any(n.endswith("primary.curated.fa") for n in files) and not all(
+        any(t in p[4] for t in want) for _, ps in pvspec[1] for p in ps
+    ):
+        ctx.violation("cli-no-primary-file", case, f"{sorted(files)!r}")
+
+
+def check_c11_files(case, files, ctx):
+    import yaml
+
+    y = next((n for n in files if n.endswith(".info.yaml")), None)
+    if y is None:
+        ctx.violation("cli-no-info-yaml", case, f"{sorted(files)!r}")
+        return
+    info = yaml.safe_load(files[y])
+    hap = next((n for n in files if n.endswith("additional_haplotigs.curated.fa")), None)
+    nrec = sum(1 for ln in files[hap].split(b"\n") if ln.startswith(b">")) if hap else 0
+    if info.get("manual_haplotig_removals") != nrec:
+        ctx.violation("yaml-haplotig-removals", case, f"yaml says {info.get('manual_haplotig_removals')}, haplotig file has {nrec} records")
+    log = next((n for n in files if n.endswith(".log")), None)
+    if log:
+        m = re.search(rb"Curation made (\d+) cuts? in (?:a )?contigs?, (\d+) breaks? at (?:a )?gaps? and (\d+) joins?", files[log])
+        if not m:
+            ctx.violation("log-curation-line-missing", case, files[log][-300:].decode(errors="replace"))
+        else:
+            return tuple(int(x) for x in m.groups()), info
+    return None, info
+
+
+def run_one(chk, pvspec, ctx, validate_only=False, extra=None):
+    case = ["cli", pv.jsonable(pvspec)]
+    ctx.cur = case
+    ctx.evaluations += 1
+    ctx.nontrivial += 1
+    d = cli.scratch("verif_cli_")
+    logging.disable(logging.NOTSET)
+    try:
+        (d / "in").mkdir()
+        (d / "out").mkdir()
+        seqs = cli.write_fasta(d / "in" / "asm.fa", INP, width=7)
+        cli.write_pretext(d / "in" / "map.agp", pvspec)
+        rc, _o, err, exc = cli.invoke_p2a(["-a", d / "in" / "asm.fa", "-p", d / "in" / "map.agp", "-o", d / "out" / "x.fa"])
+        if rc != 0:
+            ctx.count("cli_exit_nonzero")
+            return None
+        files = cli.dir_files(d / "out")
+        check_outputs(case, files, seqs, ctx, validate_only=validate_only)
+        if extra:
+            extra(case, files, pvspec, ctx)
+        ctx.outcome(h64(sorted((k, v) for k, v in files.items() if not k.endswith(".log"))))
+        return files
+    finally:
+        logging.disable(logging.CRITICAL)
+        cli.cleanup(d)
+
+
+def run_shard(chk, shard, ctx, validate_only=False, extra=None):
+    _, chunk, chunks, tier = shard
+    cs = cases(tier)
+    for i, pvspec in enumerate(cs):
+        if i % chunks == chunk:
+            run_one(chk, pvspec, ctx, validate_only=validate_only, extra=extra)
+    ctx.count("cli_runs", sum(1 for i in range(len(cs)) if i % chunks == chunk))
+    if chunk == 0 and cs:
+        ctx.sample({"cli": "pretext-to-asm -a asm.fa -p map.agp -o x.fa", "pretext": pv.jsonable(cs[0]), "input": pv.jsonable(INP)})
+
+
+def replay(chk, case, ctx, validate_only=False, extra=None):
+    _, pvspec = case[:2]
+    run_one(chk, (pvspec[0], pv.tuplify(pvspec[1])), ctx, validate_only=validate_only, extra=extra)
